@@ -487,6 +487,8 @@ func checkC10(res *Result) {
 	// R7: the outcome of each step reaches the place where it is turned into a status
 	res.Rule("C10-R7", "error discipline on the request path (entry points, deliver, sideEffectActor.PostInbox/PostOutbox, AuthorizePostInbox): no effect after a failed or untested step, and no failure (in particular ErrObjectRequired/ErrTargetRequired on its way to the 400) is swallowed into a success return")
 	addErrFlowObligations(res, p, E, "C10-R7", []string{"baseActor.PostInboxScheme", "baseActor.PostOutboxScheme", "baseActor.GetInbox", "baseActor.GetOutbox", "NewActivityStreamsHandlerScheme$1", "baseActor.deliver", "sideEffectActor.PostInbox", "sideEffectActor.PostOutbox", "sideEffectActor.AuthorizePostInbox"}, true)
+	res.Rule("C10-R9", "sentinel transparency: sideEffectActor.PostInbox / PostOutbox and baseActor.deliver hand a callback's error on as it is — none builds a new error from it and returns that instead (the comparison with ErrObjectRequired / ErrTargetRequired at the entry point decides the 400)")
+	checkSentinelTransparent(res, p, E, "C10-R9", []string{"sideEffectActor.PostInbox", "sideEffectActor.PostOutbox", "baseActor.deliver"})
 	// R5-provenance of the sentinels is C16-R1 (shared rule), applied here too
 	checkRequiredFirst(res, p, E, "C10-R6")
 	res.Rule("C10-R6", "the 400 sentinels come from where documented: every default callback whose activity requires object (target) returns ErrObjectRequired (ErrTargetRequired) when it is nil or empty, before any effect")
